@@ -30,7 +30,7 @@ for pid in ids:
     })
 man = {
     "version": 1,
-    "setup_cmd": "cd lean && lake build",
+    "setup_cmd": "tools/setup.sh",
     "hooks": {
         "guard": "PYINVOKE_INVOKE_VERIF",
         "enable": "checks export PYINVOKE_INVOKE_VERIF=1; no source hooks are needed (scripted/gated runners are subclasses defined in the harness)",
@@ -48,5 +48,15 @@ man = {
     "not_applicable": na,
     "notes": "Entry point ./check <ID> <quick|thorough>; ./check --replay <file>. Known findings: known_findings.json. See DESIGN.md.",
 }
+# merge known findings
+import glob
+kf = []
+for f in sorted(glob.glob(os.path.join(VERIF, "known_findings.d", "*.json"))):
+    kf += json.load(open(f))
+json.dump({"comment": "Committed list of genuine defects of pyinvoke/invoke found by the checks (merged from known_findings.d/ by tools/mkmanifest.py; never written at run time). status=known: still present - printed as KNOWN-FINDING, suppresses only failures its match predicate recognises. status=fixed: repaired by the named fix: commit in /repo; suppresses nothing - its witness is replayed on every run and must pass.",
+           "findings": kf}, open(os.path.join(VERIF, "known_findings.json"), "w"), indent=1)
+# root module of the Lean library
+props = sorted(os.path.basename(f)[:-5] for f in glob.glob(os.path.join(VERIF, "lean", "Invoke", "Props", "C*.lean")))
+open(os.path.join(VERIF, "lean", "Invoke.lean"), "w").write("-- Root of the `Invoke` library (written by tools/mkmanifest.py): every property file.\n" + "".join("import Invoke.Props.%s\n" % x for x in props))
 json.dump(man, open(os.path.join(VERIF, "MANIFEST.json"), "w"), indent=1)
 print("checks:", [c["property_id"] for c in checks], "not claimed:", [n["property_id"] for n in na])
